@@ -8,7 +8,7 @@ from sa.engine.cfg import must_pass_after, normally_dominates
 from sa.engine.consts import UNKNOWN
 from sa.engine.context import Ctx
 from sa.engine.guards import Cond, path_conditions, terminal
-from sa.engine.loader import AnalysisError, dotted, norm, short, walk_own
+from sa.engine.loader import AnalysisError, dotted, norm, short, walk_own, anorm
 from sa.engine.report import Finding, RuleReport
 from sa.rules.common import X, extractor_entries, raised_class
 
@@ -382,10 +382,13 @@ def rule_order(ctx: Ctx) -> RuleReport:
     fi = ctx.p.func(ZB, "open_zipfile")
     rep.unit(fi.key)
     cfg = ctx.cfg(fi)
-    vcalls = [c for c in calls_in(fi) if any(g.qual == "validate_zipfile" for g in resolve_call(ctx.p, fi, c).funcs)]
+    vcalls = [c for c in calls_in(fi) if any(g.qual in ("validate_zipfile", "validate_zip_bytesio") for g in resolve_call(ctx.p, fi, c).funcs)]
     rets = [n for n in walk_own(fi.node) if isinstance(n, ast.Return) and n.value is not None]
-    if not vcalls or not rets:
-        raise AnalysisError("C11-ORDER: open_zipfile lost its validate_zipfile call or its return (idiom not recognised)")
+    if not rets:
+        raise AnalysisError("C11-ORDER: open_zipfile lost its return (idiom not recognised)")
+    if not vcalls:
+        rep.fail(Finding("C11-ORDER", ZB, fi.qual, "no validation", "open_zipfile hands out a ZipFile without calling validate_zipfile / validate_zip_bytesio: ZipContext and the ODF encryption probe read unvalidated containers", line=fi.node.lineno))
+        return rep
     vnodes = [x for v in vcalls for x in cfg.evaluators(v)]
     for r in rets:
         for b in cfg.evaluators(r):
@@ -400,7 +403,7 @@ def rule_order(ctx: Ctx) -> RuleReport:
         if kws.get("limits") == "limits":
             rep.ok({"passes": "limits=limits"})
         else:
-            rep.fail(Finding("C11-ORDER", ZB, fi.qual, short(v), "open_zipfile does not pass its `limits` to validate_zipfile", line=v.lineno))
+            rep.fail(Finding("C11-ORDER", ZB, fi.qual, "limits not passed: " + anorm(v, fi.node), f"open_zipfile does not pass its `limits` to `{short(v, 50)}`: the opener behind ZipContext ignores configured limits (max_entries, ratios, sizes)", line=v.lineno))
     # handlers around the validation: close + bare raise
     for t in [n for n in walk_own(fi.node) if isinstance(n, ast.Try)]:
         if not any(v in list(ast.walk(t)) for v in vcalls):
